@@ -50,23 +50,34 @@ def call(graph, x, y, z, api):
     return out
 
 
-def with_history(g, graph):
-    """The same graph reached through a history: built without a pendant node, queried, then extended by the missing
-    edge with add_directed_edge.  The answer must depend on (G, X, Y) alone."""
+def with_history(g, graph, variant=0):
+    """The same graph reached through a history on ONE object: built without one edge (a bidirected edge, or a pendant
+    node with its only edge), queried, then completed in place with add_undirected_edge / add_directed_edge.  The
+    answer must depend on (G, X, Y) alone."""
     from y0.algorithm.identify import identify_outcomes
 
+    def warm(part, nodes):
+        for a in nodes:       # warm-up queries on the partial graph (not the calls under test)
+            for b in nodes:
+                if a != b:
+                    try:
+                        identify_outcomes(part, {var(a)}, {var(b)})
+                    except Exception:  # noqa: BLE001
+                        pass
+
+    bs = [list(e) for e in g["b"]]
+    if bs and (variant % 2 == 0 or not g["d"]):
+        u, v = bs[variant // 2 % len(bs)]
+        part = build_graph({"n": g["n"], "d": g["d"], "b": [e for e in bs if e != [u, v]]}, 0)
+        warm(part, g["n"])
+        part.add_undirected_edge(var(u), var(v))
+        return part
     for u, v in g["d"]:
         touches = [e for e in g["d"] if v in e] + [e for e in g["b"] if v in e]
         if len(touches) == 1 and len(g["n"]) >= 3:
             rest = [n for n in g["n"] if n != v]
             part = build_graph({"n": rest, "d": [e for e in g["d"] if v not in e], "b": [e for e in g["b"] if v not in e]}, 0)
-            for a in rest:       # warm-up queries on the partial graph (not the calls under test)
-                for b in rest:
-                    if a != b:
-                        try:
-                            identify_outcomes(part, {var(a)}, {var(b)})
-                        except Exception:  # noqa: BLE001
-                            pass
+            warm(part, rest)
             part.add_directed_edge(var(u), var(v))
             return part
     return graph
@@ -84,7 +95,7 @@ def main():
                 ser.set_naming("permuted", gi * 31 + qi) if order == 1 else ser.set_naming("V")
                 graph = build_graph(g, order)
                 if order == 2:
-                    graph = with_history(g, graph)
+                    graph = with_history(g, graph, qi)
                 out = call(graph, x, y, z, api=order % 2)
                 if out["k"] == "expr":
                     try:
